@@ -25,8 +25,15 @@ def height_event(rows):
     o = pj.stab_obs(st)
     o["kind"] = "S"
     try:
+        from graphiq.backends.stabilizer.functions.height import height_function, height_dict, height_max
+        n = st.n_qubits
         h = height_func_list(st.x_matrix.copy(), st.z_matrix.copy())
-        out = {"err": "", "h": [int(v) for v in h]}
+        hd = height_dict(x_matrix=st.x_matrix.copy(), z_matrix=st.z_matrix.copy())
+        out = {"err": "", "h": [int(v) for v in h],
+               # the same quantity through the other entry points (matrix form of height_dict / height_max, per position)
+               "hf": [int(height_function(st.x_matrix.copy(), st.z_matrix.copy(), k)) for k in range(n)],
+               "hd": [int(hd[k]) for k in range(n)], "hd_first": int(hd[-1]),
+               "hmax": int(height_max(x_matrix=st.x_matrix.copy(), z_matrix=st.z_matrix.copy()))}
     except Exception as ex:
         out = pj.err_obs(ex)
     return o, {"fn": "height", "a": 1, "out": out}
